@@ -63,21 +63,30 @@ static int fault_answer (MemDev *md, int fault, sf_count_t requested, sf_count_t
 	return 1 ;
 }
 
+/* what the device held when the first fault hit (virtual-I/O route): the "accepted" bytes of the containment clause */
+static unsigned char *fault_snap ; static sf_count_t fault_snap_len ; static int nontransfer_fault ;
+static void mark_first_fault (MemDev *md, long idx)
+{	plan.first_fault_ncb = idx ; plan.len_at_fault = md->len ;
+	free (fault_snap) ; fault_snap = malloc (md->len + 1) ; fault_snap_len = md->len < md->pos ? md->len : md->pos ;	/* bytes in front of the faulted transfer: what lies behind its start the transfer itself was about to replace */
+	 if (md->len > 0) memcpy (fault_snap, md->data, md->len) ;
+}
+
 static int fault_hook (MemDev *md, int kind, sf_count_t requested, sf_count_t *answer, void *user)
 {	long idx = md->ncb + 1 ;	/* 1-based index of the callback being answered */
 	(void) user ;
 	if (plan.persistent == 2)	/* the device dies at call plan.at [0]: from then on nothing is transferred, seek and tell fail, the length stays */
 	{	if (idx < plan.at [0] || kind == MD_LEN) return 0 ;
-		if (plan.first_fault_ncb == 0) { plan.first_fault_ncb = idx ; plan.len_at_fault = md->len ; }
-		faults_delivered ++ ;
+		if (plan.first_fault_ncb == 0) mark_first_fault (md, idx) ;
+		faults_delivered ++ ; if (kind != MD_WRITE) nontransfer_fault = 1 ;
 		*answer = (kind == MD_READ || kind == MD_WRITE) ? 0 : -1 ; (void) requested ;
 		return 1 ;
 		}
 	for (int k = 0 ; k < plan.nfaults ; k++)
 	{	int hit = plan.persistent ? (idx >= plan.at [k] && kind == plan.kind0) : idx == plan.at [k] ;
 		if (hit && applies (plan.fault [k], kind))
-		{	if (plan.first_fault_ncb == 0) { plan.first_fault_ncb = idx ; plan.len_at_fault = md->len ; }
+		{	if (plan.first_fault_ncb == 0) mark_first_fault (md, idx) ;
 			faults_delivered ++ ; if (plan.fault [k] == F_SEEKWRONG || plan.fault [k] >= F_LEN_M1) device_lied = 1 ;
+			if (kind != MD_WRITE || plan.fault [k] > F_MINUS1) nontransfer_fault = 1 ;
 			return fault_answer (md, plan.fault [k], requested, answer) ;
 			}
 		}
@@ -120,7 +129,7 @@ static void after_close_checks (int close_rc, int device_close_failed, const cha
 	if (close_rc != 0 && ! device_close_failed && plan.nfaults == 0) V16 ("close-nonzero", "%s: sf_close returned %d although no I/O failed", what, close_rc) ;
 }
 
-static void begin_history (void) { sio_reset_alloc () ; sio_reset_fds () ; sio_reset_files () ; plan.first_fault_ncb = 0 ; plan.len_at_fault = 0 ; faults_delivered = 0 ; device_lied = 0 ; thash = 0 ; fd_baseline = sio_fd_count () ; }
+static void begin_history (void) { sio_reset_alloc () ; sio_reset_fds () ; sio_reset_files () ; plan.first_fault_ncb = 0 ; plan.len_at_fault = 0 ; faults_delivered = 0 ; device_lied = 0 ; nontransfer_fault = 0 ; thash = 0 ; fd_baseline = sio_fd_count () ; }
 
 /* checked typed calls */
 static void chk_write (SNDFILE *sf, const short *buf, long k, long *pos)
@@ -489,6 +498,7 @@ static long workload (int w, unsigned char *kinds, long maxk)
 
 /* write workloads: the audio bytes the device had accepted when the first fault hit must be intact at the end */
 static unsigned char *good_image ; static sf_count_t good_len, good_dataoffset ; static uint64_t good_thash ;
+static unsigned char *good_meta_image ; static sf_count_t good_meta_len, good_meta_dataoffset ;
 
 static uint64_t final_image (unsigned char **img, sf_count_t *len)
 {	if (ROUTE == R_VIO) { *img = dev.data ; *len = dev.len ; return md_hash (&dev) ; }
@@ -497,6 +507,18 @@ static uint64_t final_image (unsigned char **img, sf_count_t *len)
 
 static void data_preserved_check (int w)
 {	unsigned char *img ; sf_count_t len, upto ;
+	if (w == W_WRITE_META && ROUTE == R_VIO && plan.first_fault_ncb && good_meta_image && ! is_c16 && ! device_lied && ! nontransfer_fault && fault_snap)
+	{	/* Only executions whose delivered faults are all write transfers (0 bytes, fewer bytes, -1): a failed tell or seek during a header
+		** rewrite leaves the file position behind the header in most containers, which is a wider question than this clause settles.
+		** This history also rewrites headers in mid-stream and overwrites audio after a seek back: every audio byte the device held at the first
+		** fault must at the end be what it was then, or what the same history puts there without the fault - not something a later call displaced */
+		final_image (&img, &len) ;
+		upto = fault_snap_len < len ? fault_snap_len : len ; if (upto > good_meta_len) upto = good_meta_len ;
+		for (sf_count_t k = good_meta_dataoffset ; img && k < upto ; k++)
+			if (img [k] != fault_snap [k] && img [k] != good_meta_image [k])
+			{	V15 ("accepted-data-displaced", "byte %lld of the audio data is 0x%02x at the end: it was 0x%02x when the fault at I/O call %ld hit and the fault-free history leaves 0x%02x there", (long long) k, img [k], fault_snap [k], plan.first_fault_ncb, good_meta_image [k]) ; break ; }
+		return ;
+		}
 	if ((w != W_WRITE) || ! plan.first_fault_ncb || ! good_image || is_c16) return ;
 	final_image (&img, &len) ;
 	upto = plan.len_at_fault < len ? plan.len_at_fault : len ;
@@ -543,6 +565,15 @@ static void fault_sweep (int w)
 			if (sf) { pk_get (sf, &pk, 0) ; good_dataoffset = pk.dataoffset ; INLIB (sf_close (sf)) ; } md_free (&tmp) ;
 			}
 		else good_dataoffset = 0 ;	/* SD2: the data fork is audio from byte 0 */
+		}
+	if (w == W_WRITE_META)
+	{	free (good_meta_image) ; good_meta_image = NULL ;
+		if (ROUTE == R_VIO && img && ! F->needs_path)
+		{	SF_INFO ri ; SNDFILE *sf ; PeekState pk ; MemDev tmp ;
+			good_meta_len = len ; good_meta_image = malloc (len + 1) ; memcpy (good_meta_image, img, len) ; good_meta_dataoffset = len ;
+			md_init (&tmp) ; md_set (&tmp, good_meta_image, good_meta_len) ; rt_info_read (&ri, F, CH, fmt_default_rate (F)) ; sf = md_open (&tmp, SFM_READ, &ri) ;
+			if (sf) { pk_get (sf, &pk, 0) ; good_meta_dataoffset = pk.dataoffset ; INLIB (sf_close (sf)) ; } md_free (&tmp) ;
+			}
 		}
 	if (ROUTE == R_PATH) free (img) ;
 	if (vl_case ("%s H fmt=%s ch=%d route=%s workload=%s fault=none", vl_opts.prop, F->name, CH, route_names [ROUTE], w_names [w]))
